@@ -19,8 +19,12 @@ ASSUMPTIONS = ["the documented (textbook) densities are normalised (cited; 'inte
 LOG2PI = lambda c: c.log(2 * (shims.NP.pi if c.sym else np.pi))
 
 
+_SUF = ['']      # suffix of the parameter symbols (a second, independent parameter set for the reassignment histories)
+
+
 def _par(c, name, n, form, **kw):
     """a parameter given as scalar (broadcast), vector or list"""
+    name = name + _SUF[0]
     if form == 'scalar':
         v = c.real(name, **kw); return v, np.array([v] * n, dtype=object if c.sym else float)
     vec = c.vec(name, n, **kw)
@@ -127,6 +131,72 @@ def family_outside_support(c, fam, n, form, which):
     v = d.logpdf(x)
     isneginf = (not isinstance(v, core.SReal)) and np.ndim(v) == 0 and float(v) == float('-inf')
     c.holds('logpdf_is_minus_inf_outside_support', bool(isneginf), note=f"returned {v!r}")
+
+
+def family_reassign(c, fam, n, form='vector'):
+    """history: the object is used, then every parameter is reassigned through its public attribute; it must then denote the
+    documented density with the NEW parameters (and behave like a freshly constructed object)"""
+    _SUF[0] = ''
+    d, spec, support = FAMILIES[fam](c, n, form)
+    x = c.vec('x', n)
+    if support is not None:
+        for cond in support(x): c.assume(cond)
+    _ = d.logpdf(x)
+    try: _ = d.gradient(x)
+    except Exception: pass
+    _SUF[0] = '_new'
+    try: fresh, spec2, support2 = FAMILIES[fam](c, n, form)
+    finally: _SUF[0] = ''
+    for var in d.get_mutable_variables(): setattr(d, var, getattr(fresh, var))
+    z = c.vec('z', n)
+    if support2 is not None:
+        for cond in support2(z): c.assume(cond)
+    c.eq('after_reassignment:logpdf_is_documented_density_with_the_new_parameters', d.logpdf(z), spec2(z))
+    c.eq('after_reassignment:logd_as_fresh_object', d.logd(z), fresh.logd(z))
+    if hasattr(d, 'cdf') and fam not in ('Lognormal',):
+        c.eq('after_reassignment:cdf_as_fresh_object', d.cdf(z), fresh.cdf(z))
+    try: gf = fresh.gradient(z)
+    except Exception: gf = None
+    if gf is not None: c.eq('after_reassignment:gradient_as_fresh_object', d.gradient(z), gf)
+
+
+def gaussian_reassign(c, param, form2, n=2):
+    """Gaussian: used (logpdf, compute_cov), then the matrix parameter and the mean are reassigned; all derived quantities follow"""
+    mean = c.vec('m', n); x = c.vec('x', n)
+    g = Gaussian(mean, **{param: c.vec('v', n, pos=True)})
+    _ = g.logpdf(x); _ = g.compute_cov(); _ = g.sqrtprecTimesMean
+    m2 = c.vec('m_new', n)
+    if form2 == 'vector':
+        diag = c.vec('v_new', n, pos=True); arg = diag
+        Sd = {'cov': diag, 'prec': 1 / diag, 'sqrtcov': diag ** 2, 'sqrtprec': 1 / diag ** 2}[param]
+        spec = _gauss_spec(c, x, m2, Sigma_diag=Sd); Sigma = np.diag(Sd)
+    else:
+        if param.startswith('sqrt'):
+            a, b, d_ = c.real('ra', pos=True), c.real('rb'), c.real('rd', pos=True)
+            arg = np.array([[a, b], [b, d_]], dtype=object if c.sym else float); c.assume((a * d_ - b * b) ** 2 > 0.01)
+        else:
+            G = c.lower('g', n); arg = G @ G.T
+        A = np.asarray(arg)
+        if param in ('cov', 'sqrtcov'):
+            Sigma = A if param == 'cov' else A.T @ A
+            spec = _gauss_spec(c, x, m2, Sigma=Sigma)
+        else:
+            P = A if param == 'prec' else A.T @ A
+            d = x - m2; det = P[0, 0] * P[1, 1] - P[0, 1] * P[1, 0]
+            spec = -0.5 * (n * LOG2PI(c) - np.log(det)) - 0.5 * (d @ P @ d)
+            Sigma = np.array([[P[1, 1], -P[0, 1]], [-P[1, 0], P[0, 0]]], dtype=P.dtype) / det
+    setattr(g, param, arg); g.mean = m2
+    c.eq('after_reassignment:logpdf_is_documented_gaussian_with_the_new_parameters', g.logpdf(x), spec)
+    S = g.sqrtprec; S = S.toarray() if hasattr(S, 'toarray') else np.asarray(S)
+    if S.ndim < 2: S = np.diag(np.ravel(S) * np.ones(n))
+    c.eq('after_reassignment:sqrtprecTimesMean_is_sqrtprec_times_the_new_mean', np.asarray(g.sqrtprecTimesMean), S @ m2)
+    stale_cov_refused = False
+    try: cv = g.cov
+    except NotImplementedError: stale_cov_refused = True
+    if not stale_cov_refused and cv is not None and param != 'cov':
+        cvm = np.asarray(cv); 
+        c.eq('after_reassignment:a_covariance_that_is_still_reported_is_the_new_one', cvm if cvm.ndim == 2 else np.diag(np.ravel(cvm) * np.ones(n)), Sigma)
+    c.eq('after_reassignment:compute_cov_gives_the_new_covariance', np.asarray(g.compute_cov()), Sigma)
 
 
 # ------------------------------------------------------------------------------------------ cdf
@@ -272,6 +342,13 @@ def jobs(tier):
                     J.append(Job(f'Gaussian.logpdf:{param}:{form}:sparse_switch={side}:n={n}',
                                  lambda c, p=param, f=form, n=n, s=side: gaussian_form(c, p, f, n, s), lvl, G, timeout=300,
                                  nnum=(40 if lvl == 'B' else None)))
+    for fam in FAMILIES:
+        J.append(Job(f'{fam}.history:parameters_reassigned_after_use:n=2', lambda c, fam=fam: family_reassign(c, fam, 2), 'B' if fam == 'Lognormal' else 'Pbox',
+                     F(mods[fam], f'{fam}.logpdf') + [f'{D}._distribution:Distribution.logd']))
+    for param in ('cov', 'prec', 'sqrtcov', 'sqrtprec'):
+        for form2 in ('vector', 'dense'):
+            J.append(Job(f'Gaussian.history:{param}_and_mean_reassigned_after_use:new_value={form2}', lambda c, p=param, f=form2: gaussian_reassign(c, p, f), 'Pbox',
+                         [f'{D}._gaussian:Gaussian.{param}', f'{D}._gaussian:Gaussian.compute_cov', f'{D}._gaussian:Gaussian.sqrtprecTimesMean', f'{D}._gaussian:Gaussian.logpdf'], timeout=600))
     # "the Markov-random-field priors equal the documented densities of the finite differences of the shifted variable": the
     # contracts live with the difference-operator contracts of C20 and are claimed for this property as well
     from contracts import C20 as _c20
